@@ -26,7 +26,8 @@ template <class RealType_T, class SpaceIndexType_T>
 class TKernel {
 public:
     using SpacialConfiguration = TbfSpacialConfiguration<RealType_T, SpaceIndexType_T::Dim>;
-    explicit TKernel(const SpacialConfiguration&){}
+    KernelGeom kg;
+    explicit TKernel(const SpacialConfiguration& c){ for(int d = 0; d < DIM; ++d) kg.bw[d] = c.getBoxWidths()[d]; kg.height = c.getTreeHeight(); }
     TKernel(const TKernel&) = default;
 
     template <class Sym, class PV>
@@ -55,7 +56,7 @@ public:
     }
     template <class Sym, class CC, class C>
     void M2M(const Sym& hdr, const long level, const CC& low, C& up, const long pos[], const long n) const {
-        if(gTK.geom && gTK.periodic && gRS.byM(&up) == nullptr) virtualM2M(gRS, level, low, up, pos, n);
+        if(gTK.geom && gTK.periodic && gRS.byM(&up) == nullptr){ virtualGeom(kg, level); virtualM2M(gRS, level, low, up, pos, n); }
         else if(gTK.geom){
             const CellRec* p = gRS.byM(&up);
             bool ok = n >= 1 && p != nullptr && p->level == level && p->idx == hdr.spaceIndex;
@@ -70,7 +71,7 @@ public:
     }
     template <class Sym, class CC, class C>
     void M2L(const Sym& hdr, const long level, const CC& src, const long pos[], const long n, C& tgt) const {
-        if(gTK.geom && gTK.periodic && gRT.byL(&tgt) == nullptr) virtualM2L(level, src, pos, n, tgt);
+        if(gTK.geom && gTK.periodic && gRT.byL(&tgt) == nullptr){ virtualGeom(kg, level); virtualM2L(level, src, pos, n, tgt); }
         else if(gTK.geom){
             const CellRec* t = gRT.byL(&tgt);
             irsym_assert(n >= 1, YG_N);
@@ -94,7 +95,7 @@ public:
     }
     template <class Sym, class C, class CC>
     void L2L(const Sym& hdr, const long level, const C& up, CC& low, const long pos[], const long n) const {
-        if(gTK.geom && gTK.periodic && gRT.byL(&up) == nullptr) virtualL2L(gRT, level, up, low, pos, n);
+        if(gTK.geom && gTK.periodic && gRT.byL(&up) == nullptr){ virtualGeom(kg, level); virtualL2L(gRT, level, up, low, pos, n); }
         else if(gTK.geom){
             const CellRec* p = gRT.byL(&up);
             bool ok = n >= 1 && p != nullptr && p->level == level && p->idx == hdr.spaceIndex;
